@@ -172,7 +172,7 @@ def env_stage(ctx, pid):
     """EnvModel (owner: C12): model checking to a bounded number of steps, behaviours replayed on a real Sign1Message through
     SignHashEnvelope / VerifyHashEnvelope and the ordinary COSE_Sign1 entry points, trace validation"""
     if pid == "C12":
-        mc(ctx, "EnvModel", cfgtext(invariants=ENV_INVS, props=ENV_PROPS, constants=dict(MaxHist=0, Record="FALSE", MaxLevel=4 if ctx.quick() else 5, **ENV_SMALL),
+        mc(ctx, "EnvModel", cfgtext(invariants=ENV_INVS, props=ENV_PROPS, constants=dict(MaxHist=0, Record="FALSE", MaxLevel=6 if ctx.quick() else 8, **ENV_SMALL),
                                     extra="VIEW View\nCONSTRAINT LevelBound\n"), timeout=3000, heap="8g")
     n, depth = (250, 9) if ctx.quick() else (3000, 12)          # TLC emits every prefix of a simulated trace: about 1 500 behaviours per 50 requested
     consts = dict(Record="TRUE", MaxLevel=0, **ENV_ALL)
